@@ -153,7 +153,11 @@ def execute(case):
         if case["op"] in ("integrate", "average"):
             kw = {}
         if a.get("fill_bad"):
-            kw["fill_value"] = "abc" if case["id"] % 2 else {x["name"]: "abc" for x in case["grid"]["axes"]}
+            import numpy as np
+
+            # not a number: text, or a sequence / array of numbers, given for every axis or inside a per-axis mapping
+            bad = ["abc", [1.0, 2.0], (5.0, 7.0), np.array([1.0, 2.0, 3.0]), [0.0]][(case["id"] // 2) % 5]
+            kw["fill_value"] = bad if case["id"] % 2 else {nm(x["name"]): bad for x in case["grid"]["axes"]}
         res = getattr(grid, case["op"])(da, [nm(x) for x in a["axis"]], **kw)
         rec["out"] = {"k": "array", "dims": [str(d) for d in res.dims], "shape": [int(s) for s in res.shape]}
     except Exception as ex:
@@ -184,7 +188,11 @@ def exec_transform(case):
         da = xr.DataArray(np.arange(n) * 1.0, dims=["zc"], name="phi")
         tdim = "zo" if (t["method"] == "conservative" and t["has_outer"]) else "zc"
         theta = xr.DataArray(np.arange(len(coords[tdim][1])) * 2.0, dims=[tdim], name="theta")
-        res = grid.transform(da, "Z", np.array(t["bins"], dtype=float), target_data=theta, method=t["method"])
+        more = {} if t.get("bypass", "none") == "none" else {"bypass_checks": t["bypass"] == "true"}
+        target = np.array(t["bins"], dtype=float)
+        if t.get("target_da"):
+            target = xr.DataArray(target, dims=["lev"])
+        res = grid.transform(da, "Z", target, target_data=theta, method=t["method"], **more)
         rec["out"] = {"k": "array", "dims": [str(d) for d in res.dims], "shape": [int(s) for s in res.shape]}
     except Exception as ex:
         rec["out"] = model.encode_error(ex)
@@ -203,7 +211,8 @@ def gen_transform(rng, n):
         elif r < 0.55 and len(bins) >= 3:
             bins[0], bins[1] = bins[1], bins[0]
         out.append({"ev": "TransformIll", "t": {"periodic": rng.choice([False, False, True, "default"]), "method": method,
-                                                "has_outer": rng.random() < 0.6, "bins": bins}})
+                                                "has_outer": rng.random() < 0.6, "bins": bins,
+                                                "bypass": rng.choice(["none", "none", "true", "false"]), "target_da": rng.random() < 0.3}})
     return out
 
 
@@ -217,7 +226,7 @@ KNOWN_UNUSED = "unknown-boundary-word-or-non-numeric-fill-accepted-when-nothing-
 def run(ctx):
     thorough = ctx.tier == "thorough"
     rng = random.Random(ctx.seed * 275604541 + 20)
-    cases = gen_cases(rng, 20000 if thorough else 3000) + gen_transform(rng, 2000 if thorough else 400)
+    cases = gen_cases(rng, 20000 if thorough else 3000) + gen_transform(rng, 3000 if thorough else 900)
     for k, c in enumerate(cases):
         c["id"] = k + 1
     recs = ctx.pmap(execute, cases)
